@@ -116,6 +116,9 @@ def main():
     expect = [sum(4 * (r1 * 3 + c1) + (r2 * 2 + c2) for c1 in range(3) for c2 in range(2))
               for r1 in range(2) for r2 in range(2)]
     rect_ok = (pr == expect)
+    # sequential_bidx on a rectangular block: n*i + j (fixes/C15-sequential-bidx-rectangular.patch) or m*i + j (as it stood)?
+    seq_fixed = guarded(lambda: ints(MLStructure(((2, 3),), (mlmatrix.compute_dense_ij(2, 3),)).sequential_bidx()[0])) == [0, 1, 2, 3, 4, 5]
+    skip_rect_seq = bool(payload.get('skip_rect_seq_when_unrepaired')) and not seq_fixed
 
     def run_ml(c, light=False):
         res = {}
@@ -165,6 +168,26 @@ def main():
             res['dfm_sparse'] = guarded(lambda: exact_ints(MLMatrix(structure=S, matrix=scipy.sparse.csr_matrix(A)).data))
         res['tidx'] = [guarded(lambda b=b: ints(mlmatrix.get_transpose_idx_for_bidx(b))) for b in S.bidx]
         res['seqb'] = guarded(lambda: [ints(v) for v in S.sequential_bidx()])
+        rect_struct = any(b[0] != b[1] for b in S.bs)
+        if skip_rect_seq and rect_struct:
+            res['seqb_skipped'] = True
+
+        def rtg():
+            # ReorderedTensorGenerator: which matrix positions does it request for the whole data tensor?
+            asked = []
+
+            def multiasm(indices):
+                indices = list(indices)
+                asked.extend([int(i), int(j)] for (i, j) in indices)
+                return np.zeros(len(indices))
+            G = mlmatrix.ReorderedTensorGenerator(multiasm, S)
+            if tuple(G.shape) != datashape:
+                return {'error': 'Shape', 'msg': str(G.shape)}
+            import itertools
+            G.compute_entries(list(itertools.product(*[range(n) for n in datashape])))
+            return asked
+        if int(np.prod(datashape)) <= 400 and not (skip_rect_seq and rect_struct):
+            res['rtg'] = guarded(rtg)
 
         # join / slice: structural operations
         def joinslice():
@@ -193,6 +216,49 @@ def main():
         cur = list(c['data'])
         M = MLMatrix(structure=S, data=arr(cur, c.get('layout', 'C')))
         out = []
+        PRODUCTS = ('dot', 'matmat', 'at', 'matvec', 'matmat2', 'sum', 'dotdot', 'opprod', 'reodot')
+        kept = []          # (position in out, result array(s) as returned, argument arrays): every product result is
+                           # kept as the object the library returned and read again at the end of the history
+        reo_objs = {}      # M.reorder(axes) objects, reused for several products until .data is reassigned
+
+        def vec(v):
+            return np.array(v, dtype=float)
+
+        def product(obj, st, robjs):
+            """-> (list of result arrays, list of argument arrays)"""
+            op = st['op']
+            if op == 'dot':
+                x = vec(st['x']); return [obj.dot(x)], [x]
+            if op == 'matmat':
+                x = vec(st['x']).reshape(-1, 1); return [obj.dot(x)], [x]
+            if op == 'at':
+                x = vec(st['x']); return [obj @ x], [x]
+            if op == 'matvec':
+                x = vec(st['x']); return [obj.matvec(x)], [x]
+            if op == 'matmat2':
+                X = np.column_stack([vec(st['x']), vec(st['x2'])])
+                X = np.asfortranarray(X) if st.get('layout') == 'F' else np.ascontiguousarray(X)
+                return [obj.dot(X)], [X]
+            if op == 'sum':
+                x1, x2 = vec(st['x']), vec(st['x2']); return [obj.dot(x1) + obj.dot(x2)], [x1, x2]
+            if op == 'dotdot':
+                x = vec(st['x']); return [obj.dot(obj.dot(x))], [x]
+            if op == 'opprod':
+                x = vec(st['x']); return [obj.dot(obj).dot(x)], [x]
+            if op == 'reodot':
+                key = tuple(st['axes'])
+                if key not in robjs:
+                    robjs[key] = obj.reorder(key)
+                x = vec(st['x']); return [robjs[key].dot(x)], [x]
+            raise ValueError(op)
+
+        def cols(a):
+            """result array -> exact integer columns (a vector is one column)"""
+            a = np.asarray(a)
+            if a.ndim == 1:
+                return [exact_ints(a)]
+            return [exact_ints(a[:, k]) for k in range(a.shape[1])]
+
         for st in c['steps']:
             op = st['op']
             if op == 'set':
@@ -203,6 +269,7 @@ def main():
                         X = np.asfortranarray(X)
                     M.data = X
                     cur = list(st['data'])
+                    reo_objs = {}
                     out.append({'accepted': True})
                 except Exception as e:  # noqa
                     out.append({'accepted': False, 'error': errclass(e)})
@@ -214,17 +281,25 @@ def main():
                 if isinstance(r, list):
                     M.data = np.array(r, dtype=float).reshape(datashape)
                     cur = r
+                    reo_objs = {}
                 out.append({'data': r})
                 continue
             fresh = MLMatrix(structure=S, data=arr(cur, 'C'))
+            if op in PRODUCTS:
+                try:
+                    ys, xs = product(M, st, reo_objs)
+                    imm = [cl for y in ys for cl in cols(y)]
+                    kept.append((len(out), ys, xs))
+                except Exception as e:  # noqa
+                    imm = {'error': errclass(e), 'msg': str(e)[:160]}
+                rf = guarded(lambda: [cl for y in product(fresh, st, {})[0] for cl in cols(y)])
+                # 'out' is filled in at the END of the history from the kept result objects
+                out.append({'immediate': imm, 'fresh': rf, 'out': imm, 'fresh_same': imm == rf, 'aliases': []})
+                continue
 
             def q(obj):
                 if op == 'asmatrix':
                     return canon_sparse(obj.asmatrix(format=st['format']))
-                if op == 'dot':
-                    return exact_ints(obj.dot(np.array(st['x'], dtype=float)))
-                if op == 'matmat':
-                    return exact_ints(obj.dot(np.array(st['x'], dtype=float).reshape(-1, 1)))
                 if op == 'nonzero':
                     return [ints(a) for a in obj.nonzero(lower_tri=st['lt'])]
                 if op == 'transpose_nz':
@@ -235,6 +310,22 @@ def main():
             r = guarded(lambda: q(M))
             rf = guarded(lambda: q(fresh))
             out.append({'out': r, 'fresh_same': r == rf})
+        # end of the history: read every kept product result again; memory shared between results
+        # of different products, or between a result and an argument
+        for n, (pos, ys, xs) in enumerate(kept):
+            out[pos]['out'] = guarded(lambda: [cl for y in ys for cl in cols(y)])
+            out[pos]['late_same_as_fresh'] = out[pos]['out'] == out[pos]['fresh']
+            al = []
+            for y in ys:
+                for x in xs:
+                    if np.shares_memory(y, x):
+                        al.append('argument')
+                for (pos2, ys2, xs2) in kept[:n]:
+                    if any(np.shares_memory(y, y2) for y2 in ys2):
+                        al.append('result of step %d' % pos2)
+                if M.data is not None and np.shares_memory(y, M.data):
+                    al.append('data tensor')
+            out[pos]['aliases'] = al
         return {'steps': out, 'final_data': guarded(lambda: exact_ints(M.data))}
 
     def run_reindex(c):
@@ -391,7 +482,7 @@ def main():
         if isinstance(res, dict) and 'error' in res:
             res = [run_case_safe(c) for c in grp]
         out += res
-    print(json.dumps({'results': out, 'probe': {'rect_ok': rect_ok, 'out': pr}}))
+    print(json.dumps({'results': out, 'probe': {'rect_ok': rect_ok, 'out': pr, 'seq_fixed': seq_fixed}}))
 
 
 if __name__ == '__main__':
